@@ -803,7 +803,10 @@ def material_balance(chemical_IDs, variable_inlets, constant_inlets=(),
     """
     # SOLVING BY ITERATION TAKES 15 LOOPS FOR 2 STREAMS
     # SOLVING BY LEAST-SQUARES TAKES 40 LOOPS
-    solver = np.linalg.solve if is_exact else np.linalg.lstsq
+    if is_exact:
+        solver = np.linalg.solve
+    else:
+        solver = lambda A, b: np.linalg.lstsq(A, b, rcond=None)[0]
 
     # Set up constant and variable streams
     if not variable_inlets:
@@ -848,7 +851,7 @@ def material_balance(chemical_IDs, variable_inlets, constant_inlets=(),
         F_mol_out = mol_out.sum()
         z_mol_out = mol_out / F_mol_out if F_mol_out else mol_out
         f = z_mol_out[index]
-        g_ = sum([s.mol for s in constant_inlets])
+        g_ = sum([s.mol.to_array() for s in constant_inlets], np.zeros_like(mol_out))
         g = g_[index]
         O = sum(g_) * f - g
 
